@@ -67,3 +67,9 @@ package publicrpc
 //@     invariant [entries] forall j in 0..len(entries) :: entries[j] != nil && allocated(entries[j]) && 0 <= entries[j].TargetChain && entries[j].TargetChain < 65536
 //@       | && stored(s.db, struct("vaa.VAAID", s.governanceChainId, s.governanceEmitter, entries[j].TargetChain, entries[j].Sequence))
 //@       | && entries[j].VaaBytes == storedBytes(s.db, struct("vaa.VAAID", s.governanceChainId, s.governanceEmitter, entries[j].TargetChain, entries[j].Sequence))
+
+// the public RPC answers from the store and with the governance emitter it was constructed with
+//@ func NewPublicrpcServer(logger *zap.Logger, d *db.Database, gst *common.GuardianSetState, governanceChainId vaa.ChainID, governanceEmitterAddress vaa.Address) (s *PublicrpcServer)
+//@   props C12
+//@   ensures [as-passed] s != nil && s.db == d && s.gst == gst && s.governanceChainId == governanceChainId && s.governanceEmitter == governanceEmitterAddress
+//@   modifies fresh PublicrpcServer.*
